@@ -164,18 +164,18 @@ Definition parse_question (m : msg) (off : N) : res (question * N) :=
   do cl <- lift (rd16 m (off + 2));
   ROk (mkQ name ty cl, off + 4).
 
-(* validateRdataSecurity (after fix 507f657: i + 1 < size) *)
+(* validateRdataSecurity: the "pointer disguised as an address" heuristic for A records (pinned by the repository's
+   own tests: known finding C19-F4b).  The clause that rejected every AAAA / TXT RDATA with a byte >= 0xC0 is gone
+   since the repair of C19-F4c: those RDATA contain no names. *)
 Definition is_ptr_byte (b : N) : bool := N.land b 192 =? 192.
 Definition validate_rdata (ty : N) (rdata : list N) : bool :=   (* true = accepted *)
-  (if ty =? 1 then
-     match rdata with
-     | [a; b; c; d] => negb (is_ptr_byte a && (N.land a 63 * 256 + b <? 64) && (c =? 0) && (d =? 0))
-     | a :: _ :: _ => negb (is_ptr_byte a)
-     | _ => true
-     end
-   else true)
-  &&
-  (if (ty =? 16) || (ty =? 28) then negb (existsb is_ptr_byte (removelast rdata)) else true).
+  if ty =? 1 then
+    match rdata with
+    | [a; b; c; d] => negb (is_ptr_byte a && (N.land a 63 * 256 + b <? 64) && (c =? 0) && (d =? 0))
+    | a :: _ :: _ => negb (is_ptr_byte a)
+    | _ => true
+    end
+  else true.
 
 Definition parse_rr (m : msg) (off : N) : res (rrec * N) :=
   do (name, off) <- of_nres (decode_name m off);
